@@ -68,7 +68,7 @@ class RequestResponse(Generic[ResponseBodyT]):
         last of which carries an `error_code`.
         """
         callb = self._transport.register_callback(
-            self._response_rec_callback, [self.AWAITED_RESPONSE_CLASS.SERVICE_TYPE]
+            self._frame_received, [self.AWAITED_RESPONSE_CLASS.SERVICE_TYPE]
         )
         try:
             await self._send_request()
@@ -99,10 +99,36 @@ class RequestResponse(Generic[ResponseBodyT]):
         """Build knxipframe (within derived class) and send via transport."""
         self._transport.send(self._create_knxipframe())
 
+    def _answers_request(self, body: ResponseBodyT) -> bool:
+        """
+        Tell whether a body of the awaited class answers this very request.
+
+        Connection-oriented requests carry a channel id and a sequence counter
+        their acknowledgement has to repeat - they override this.
+        """
+        return True
+
+    def _frame_received(
+        self, knxipframe: KNXIPFrame, source: HPAI, transport: KNXIPTransport
+    ) -> None:
+        """Hand a received frame on unless it answers another request. Callback from internal transport."""
+        body = knxipframe.body
+        if isinstance(body, self.AWAITED_RESPONSE_CLASS) and not self._answers_request(
+            body
+        ):
+            logger.debug(
+                "Ignoring %s not answering this %s: %s",
+                self.AWAITED_RESPONSE_CLASS.__name__,
+                self.__class__.__name__,
+                knxipframe,
+            )
+            return
+        self._response_rec_callback(knxipframe, source, transport)
+
     def _response_rec_callback(
         self, knxipframe: KNXIPFrame, source: HPAI, _: KNXIPTransport
     ) -> None:
-        """Verify and handle knxipframe. Callback from internal transport."""
+        """Verify and handle knxipframe."""
         body = knxipframe.body
         if not isinstance(body, self.AWAITED_RESPONSE_CLASS):
             logger.warning(
